@@ -91,6 +91,9 @@ def main(tier, seed):
         "TLC judges result[i] = training[sel[i]] on value ids and equal slices. Non-trivial = distinct (formula, selection) pairs."
     )
     rep.assumptions = ["equality of cell values up to 1e-9 relative"]
+    from fv import callkinds
+
+    callkinds.run(rep, "C06")   # CallKinds.tla: new data take the path of the kind decided at training time
     if tier == "quick":
         design_mc.run(rep, "C06", seed, n=3, nf=3, ng=2, maxsel=2)
         traces(rep, 1500, seed)
